@@ -630,6 +630,36 @@ pub fn generate(s: &mut Session, thorough: bool) -> bool {
         add_bank(s, "names-4bytes-multibyte", &n, &a16, &pwb);
         add_sub(s, "names-4bytes-multibyte-sub", &n);
     }
+    // ---- (4b) every documented name with each symbol INSERTED at each position (lengths 5: lenient
+    //          numeric parsing such as "CBF01", "CBF+1", "B+09"…), through the main parser and, for the
+    //          Chronobox/sequencer names and a stride of the others, every sub-parser; and the
+    //          Chronobox prefix followed by every number 0..=300 with 0..=3 leading zeros / a sign
+    for (k, n) in valid.iter().enumerate() {
+        let cs: Vec<char> = n.chars().collect();
+        let sub = n.starts_with("CBF") || n.starts_with("SEQ") || k % (stride * 5) == 0;
+        for i in 0..=cs.len() {
+            for &x in &al {
+                let mut m = cs.clone();
+                m.insert(i, x);
+                let m: String = m.into_iter().collect();
+                add_bank(s, "names-insert", &m, &a16, &pwb);
+                if sub {
+                    add_sub(s, "names-insert-sub", &m);
+                }
+            }
+        }
+    }
+    for v in 0..=300u32 {
+        for z in 0..=3usize {
+            for sign in ["", "+", "-", " "] {
+                let m = format!("CBF{sign}{}{v}", "0".repeat(z));
+                add_bank(s, "names-cbf-numeric", &m, &a16, &pwb);
+                add_sub(s, "names-cbf-numeric-sub", &m);
+                let m = format!("cbf{sign}{}{v}", "0".repeat(z));
+                add_sub(s, "names-cbf-numeric-sub", &m);
+            }
+        }
+    }
     // ---- (5) other lengths 0..=8, random over the alphabet, biased to documented prefixes
     let per_len = if thorough { 20_000 } else { 1_500 };
     for len in 0..=8usize {
